@@ -5,6 +5,7 @@ CONSTANTS
   Stems = {"def"}
   SupTpls = {FALSE, TRUE}
   NsVals = {FALSE, TRUE}
+  Shapes = {"plain"}
   Wipes = FALSE
   PFiles = {}
   MaxLo = 1
@@ -15,6 +16,7 @@ CONSTANTS
   QuickOnly = FALSE
   FwdOmitToList = FALSE
   ListDeps = TRUE
+  OwnByPrefix = FALSE
   ListUserSup = TRUE
 INVARIANT RefinesOutputs
 CHECK_DEADLOCK FALSE
